@@ -44,6 +44,12 @@ def base_history(rng, path, tier):
         ops.append({'op': 20, 'id': id_, 'vec': vec, 'meta': meta})
         live[id_] = (meta.bytes(), vec.bytes())
         versions.setdefault(id_, set()).add(live[id_])
+    # the file is used before it is damaged: reopened (every span verified by the scan) and/or every document read,
+    # all in the process that later opens the damaged file
+    if rng.random() < 0.5:
+        ops.append({'op': 30, 'mode': 1})
+    for id_ in sorted(set(pool)):
+        ops.append({'op': 23, 'id': id_})
     return ops, versions, live, {'dim': dim, 'q': q, 'metric': metric}
 
 
